@@ -2,7 +2,9 @@
    instantiation of the library variables (nbformat, differ, merger, path resolution, network), every start-up
    parameter record, every file system, every server state and every request / request sequence. *)
 From Coq Require Import List NArith ZArith Bool Lia String.
-From NB Require Import Base.Json Gen.ServerFacts Sys.Server.
+From NB Require Import Base.Json.
+From NB Require Import Gen.ServerFacts.
+From NB Require Import Sys.Server.
 Import ListNotations.
 Local Open Scope string_scope.
 Local Open Scope list_scope.
